@@ -206,17 +206,17 @@ func indexOf(f []string, s string) int {
 	return -1
 }
 
-// end to end: a full pyramid z0..3 as source, Extract with the region
+// end to end: a full pyramid z0..5 as source (deep enough for tiles whose whole neighbourhood is interior), Extract with the region
 func c16extract(isBbox bool, regionText []byte, g *region) (string, []string) {
 	var es []Ent
 	var data []byte
-	for id := uint64(0); id < 85; id++ {
+	for id := uint64(0); id < 1365; id++ {
 		c := []byte(fmt.Sprintf("tile-%d;", id))
 		es = append(es, Ent{ID: id, Off: uint64(len(data)), Len: uint32(len(c)), Run: 1})
 		data = append(data, c...)
 	}
 	rr := &rng{s: 5}
-	a := buildArchive(rr, es, data, archOpts{tree: treeOpts{depth: 1, fan: 4, gzip: true, shorthand: true}, tileType: 1, tileComp: 1, meta: `{"name":"src"}`, minZoom: 0, maxZoom: 3, clustered: true})
+	a := buildArchive(rr, es, data, archOpts{tree: treeOpts{depth: 1, fan: 60, gzip: true, shorthand: true}, tileType: 1, tileComp: 1, meta: `{"name":"src"}`, minZoom: 0, maxZoom: 5, clustered: true})
 	dir, _ := os.MkdirTemp("", "vh-c16")
 	defer os.RemoveAll(dir)
 	src, out := filepath.Join(dir, "src.pmtiles"), filepath.Join(dir, "out.pmtiles")
@@ -246,11 +246,11 @@ func c16extract(isBbox bool, regionText []byte, g *region) (string, []string) {
 			got = append(got, e.ID+k)
 		}
 	}
-	_, _, rel, herr := pmtiles.VerifRegionBitmaps(regionText, isBbox, 0, 3)
+	_, _, rel, herr := pmtiles.VerifRegionBitmaps(regionText, isBbox, 0, 5)
 	if herr == nil {
 		var want []uint64
 		for _, id := range rel {
-			if id < 85 {
+			if id < 1365 {
 				want = append(want, id)
 			}
 		}
